@@ -728,7 +728,7 @@ class Printer:
                 return ("const", (l.value is None) == pol)
             if isinstance(l, ast.Call) and isinstance(l.func, ast.Name) and self._is_class(l.func.id):
                 return ("const", not pol)
-        return ("lit", self.show(e), pol)
+        return ("lit", self._show(e, atom=True), pol)
 
     def _is_class(self, name: str) -> bool:
         m = self.model
@@ -873,7 +873,26 @@ class Printer:
         s = self._show(e)
         return s
 
-    def _show(self, e: ast.AST) -> str:
+    def _booltyped(self, e: ast.AST) -> bool:
+        if isinstance(e, ast.Constant):
+            return isinstance(e.value, bool)
+        if isinstance(e, ast.Compare):
+            return True
+        if isinstance(e, ast.UnaryOp) and isinstance(e.op, ast.Not):
+            return True
+        if isinstance(e, ast.BoolOp):
+            return all(self._booltyped(v) for v in e.values)
+        if isinstance(e, ast.IfExp):
+            return self._booltyped(e.body) and self._booltyped(e.orelse)
+        if isinstance(e, ast.Call) and isinstance(e.func, ast.Name) and e.func.id in ("isinstance", "bool", "any", "all", "callable", "hasattr"):
+            return True
+        return False
+
+    def _show(self, e: ast.AST, atom: bool = False) -> str:
+        if self.canonical and not atom and not isinstance(e, ast.Constant) and self._booltyped(e) \
+                and not (isinstance(e, ast.Call)):
+            # a value that is a truth value: compare as a truth function, however it is spelled
+            return "B:" + self.show_test(e)
         sh = self._show
         ver = getattr(e, "_ver", 0)
         suffix = f"@{ver}" if ver else ""
@@ -1043,7 +1062,10 @@ class Printer:
 def flow_of(fn: FuncInfo, model: Optional[Model] = None, aliases: Optional[dict] = None) -> Flow:
     w = _Walker(fn, model)
     env: dict = {}
-    w.block(body_without_docstring(fn.node), env, ())
+    end = w.block(body_without_docstring(fn.node), env, ())
+    if end is not None and w.flow.returns:
+        # falling off the end returns None (only recorded when the function also returns explicitly)
+        w.flow.returns.append(Ret(end[1], None, fn.node))
     a = fn.node.args
     params = [x.arg for x in a.posonlyargs + a.args + a.kwonlyargs]
     w.flow.printer = Printer(model, params, aliases)
